@@ -2,6 +2,7 @@
 import copy
 import json
 import os
+import time
 
 import vlib
 
@@ -11,19 +12,134 @@ HEADER = ("From Coq Require Import String ZArith List Bool.\nImport ListNotation
 
 TRUSTED_COMMON = [
     "Coq 8.16.1 kernel and VM (vm_compute); no native_compute; no axioms (Print Assumptions: closed under the global context)",
-    "hand-written model coq/theories/GEnumModel.v of genum/gen/{generate,values,traits}.go and enumTemplate.gotmpl, tied by the generator-farm correspondence only",
+    "model coq/theories/GEnumModel.v: the functions the template emits (decoders, encoders, Parse<T>, table functions, accessor) are interpreters of control skeletons regenerated from genum/gen/enumTemplate.gotmpl on every run (translator harness/cmd/xlate_genum_skel: text/template/parse + go/parser, trusted to print what it reads; the tie proves skels_ok of its output and the theorems hold for every such record); extract_underlying / family filters tied to genum/gen/traits.go by harness/cmd/xlate_genum_traits (C05, C12); the generator layer (generate.go, values.go: constant collection, Less, ValueDeduplicatedSet, processDuplicates, validations, ParsableValuesOf) is hand-written and tied by the generator-farm correspondence only",
     "go/types + go/constant evaluation of constant expressions (cross-checked: the farm writes source from intended values and compares them with the compiled constants)",
     "Go harness harness/cmd/genumfarm (definition generator, renderer, observer dumplib), Go 1.23 toolchain, fmt %d, strings.ToLower on ASCII names",
 ]
 
 
 def build_judge(ctx):
-    """GEnumJudge.vo is not in the cone of Props/Cxx.v: (re)build it explicitly"""
-    ok, log = ctx.coq_build(["theories/GEnumJudge.vo"])
+    """GEnumJudge.vo and GEnumCodecTraits.vo (imported by the tie file) are not in the cone of every
+    Props/Cxx.v: (re)build them explicitly"""
+    ok, log = ctx.coq_build(["theories/GEnumJudge.vo", "theories/GEnumCodecTraits.vo"])
     if not ok:
         ctx.report({"unchecked": "build of coq/theories/GEnumJudge.v", "detail": log[-3000:]},
                    {"kind": "coq_build"}, failing_input=False)
     return ok
+
+
+MINIMISE_BUDGET_S = 80
+
+GEN_NAME, TIE_NAME = "GEnumSkelGen", "Tie_GEnumSkel"
+GEN_HEADER = "From GTgen Require Import GEnumSkelGen.\n"
+
+
+def _tie_fail(ctx, tie_name, cmd, what, detail):
+    f = {"unchecked": "translator tie harness/cmd/%s + coq/ties/%s.v" % (cmd, tie_name), "what": what, "detail": detail[-3500:]}
+    ctx._tie_failures = getattr(ctx, "_tie_failures", []) + [f]
+    ctx.log("translator tie %s: BROKEN - %s" % (tie_name, what))
+    ctx.cov.setdefault("translator_ties", {})[tie_name] = {"translator": "harness/cmd/" + cmd, "ok": False, "what": what}
+    return None
+
+
+def _run_tie(ctx, cmd, gen_name, tie_name, source, diagnose=None):
+    """build + run a translator on the scratch copy of the current tree, compile the regenerated file and the
+    committed tie file against it; returns the regenerated text, or None (failure recorded for report_all)"""
+    binp, log = ctx.build_harness(cmd)
+    if not binp:
+        return _tie_fail(ctx, tie_name, cmd, "translator build failed", log)
+    out = os.path.join(ctx.gen, gen_name + ".v")
+    rc, o1 = vlib.sh([binp, "-repo", ctx.copy_repo(), "-out", out], timeout=300)
+    if rc != 0:
+        return _tie_fail(ctx, tie_name, cmd, "%s left the subset the translator reads" % source, o1)
+    gen_src = open(out).read()
+    rc, o2 = ctx.coq_eval(gen_name, gen_src)
+    if rc != 0:
+        return _tie_fail(ctx, tie_name, cmd, "the regenerated %s.v does not compile" % gen_name, o1 + o2)
+    tie_src = open(os.path.join(vlib.COQ, "ties", tie_name + ".v")).read()
+    bad = vlib.FORBIDDEN.search(vlib.strip_comments(tie_src))
+    if bad:
+        return _tie_fail(ctx, tie_name, cmd, "forbidden vernacular in the tie file: " + bad.group(0), "")
+    rc, o3 = ctx.coq_eval(tie_name, tie_src)
+    if rc != 0:
+        extra = diagnose(gen_src) if diagnose else ""
+        opaque = [l.strip() for l in gen_src.splitlines() if "paque" in l]
+        return _tie_fail(ctx, tie_name, cmd, "the tie lemmas no longer hold of what was regenerated from %s%s" % (source, extra),
+                         "\n".join(opaque[:12]) + "\n" + o3)
+    n_print = len(vlib.re.findall(r"^Print Assumptions", tie_src, vlib.re.M))
+    if o3.count("Closed under the global context") != n_print:
+        return _tie_fail(ctx, tie_name, cmd, "the tie depends on axioms", o3)
+    n = len(vlib.OBLIG.findall(vlib.strip_comments(tie_src)))
+    ctx.cov["obligations"] = ctx.cov.get("obligations", 0) + n
+    ctx.cov["discharged"] = ctx.cov.get("discharged", 0) + n
+    ctx.cov.setdefault("translator_ties", {})[tie_name] = {
+        "translator": "harness/cmd/" + cmd, "regenerated": gen_name + ".v", "tie_file": "coq/ties/%s.v" % tie_name,
+        "lemmas": n, "ok": True, "regenerated_sha256": vlib.hashlib.sha256(gen_src.encode()).hexdigest()[:16]}
+    ctx.log("translator tie %s: OK - %d lemmas over the file regenerated from %s" % (tie_name, n, source))
+    return gen_src
+
+
+def skeleton_tie(ctx, traits_go=True):
+    """(T) ties of C04/C05/C12.
+    1. harness/cmd/xlate_genum_skel regenerates the control skeletons of the functions the template emits
+       (GEnumSkelGen.gen_skels) from the scratch copy of the current tree; coq/ties/Tie_GEnumSkel.v shows by computation
+       that the record satisfies GEnumModel.skels_ok and instantiates the property theorems at it.
+    2. (C05, C12) harness/cmd/xlate_genum_traits regenerates the kind table of extractUnderlying and the filter
+       conditions of the GetParsable… methods of genum/gen/traits.go; coq/ties/Tie_GEnumTraits.v shows that the model's
+       extract_underlying / family / family_own are those functions.
+    Returns the Gallina name of the skeleton record the farm's judge is to evaluate ("gen_skels" when tie 1 holds, the
+    hand-written "cur_skels" otherwise) and the header line importing it.  Broken ties are remembered in
+    ctx._tie_failures and reported after the farm run (report_all), so that the report can point at a failing input
+    when the farm finds one."""
+    ctx._tie_failures = []
+    ctx._skel_flags = {}
+
+    def diagnose(gen_src):
+        diag = ("From Coq Require Import String List Bool.\nFrom GT Require Import GEnumModel.\n" + GEN_HEADER +
+                "Eval vm_compute in (dskel_ok CoJSON (sk_json gen_skels), dskel_ok CoText (sk_text gen_skels), "
+                "dskel_ok CoYAML (sk_yaml gen_skels), parse_skel_ok (sk_parse gen_skels), small_ok gen_skels).\n")
+        _, o4 = ctx.coq_eval("GEnumSkelDiag", diag)
+        m = vlib.re.search(r"=\s*(\(.*?\))\s*:", o4, vlib.re.S)
+        return ": skels_ok gen_skels = false, (json, text, yaml, parse, small functions) = " + (" ".join(m.group(1).split()) if m else "?")
+
+    if traits_go:
+        _run_tie(ctx, "xlate_genum_traits", "GEnumTraitsGen", "Tie_GEnumTraits", "genum/gen/traits.go")
+    gen_src = _run_tie(ctx, "xlate_genum_skel", GEN_NAME, TIE_NAME, "genum/gen/enumTemplate.gotmpl", diagnose)
+    if gen_src is None:
+        return "cur_skels", ""
+    flags = ("From Coq Require Import String List Bool.\nFrom GT Require Import GEnumModel.\n" + GEN_HEADER +
+             "Eval vm_compute in (null_checked (ds_steps (sk_yaml gen_skels))).\n")
+    _, o5 = ctx.coq_eval("GEnumSkelFlags", flags)
+    ctx._skel_flags["yaml_scalar_checked"] = "= true" in o5
+    ctx.cov["translator_ties"][TIE_NAME]["flags"] = dict(ctx._skel_flags)
+    ctx.cov["translator_tie"] = ctx.cov["translator_ties"][TIE_NAME]
+    return "gen_skels", GEN_HEADER
+
+
+def use_skeletons(ctx):
+    """run the translator ties and select the skeleton record the judge evaluates"""
+    ctx._skels, ctx._skel_header = skeleton_tie(ctx, traits_go=ctx.pid in ("C05", "C12"))
+
+
+def header_of(ctx):
+    return HEADER + getattr(ctx, "_skel_header", "")
+
+
+def judge_of(ctx, judge):
+    return "(%s_sk %s)" % (judge, getattr(ctx, "_skels", "cur_skels"))
+
+
+def split_codes(ctx, jsons, bad):
+    """code 3 = the case is outside the quantified space (domain predicates of GEnumJudge): counted, never a
+    pass; too many of them are a harness defect"""
+    ood = [i for i, c in bad if c == 3]
+    rest = [(i, c) for i, c in bad if c != 3]
+    ctx.cov["out_of_domain_cases"] = len(ood)
+    ctx.cov["in_domain_cases"] = len(jsons) - len(ood)
+    if len(ood) > max(3, len(jsons) // 8):
+        ctx.report({"unchecked": "the generator farm produced %d of %d definitions outside the quantified space" % (len(ood), len(jsons)),
+                    "samples": [slim(jsons[i], keep_obs=False) for i in ood[:3]]}, {"kind": "harness"}, failing_input=False)
+    return rest
 
 
 def farm_bin(ctx):
@@ -135,13 +251,18 @@ def minimise(ctx, mode, case_type, judge, j, code, keep=None, rounds=4):
         terms, jsons, err = run_farm(ctx, mode, defs=[cur], tag="min")
         if err or not terms:
             return j
-        bad, _, err = ctx.judge_cases(HEADER, case_type, judge, terms, shard=50, tag="min")
+        bad, _, err = ctx.judge_cases(header_of(ctx), case_type, judge_of(ctx, judge), terms, shard=50, tag="min")
         if err or not any(c == code for _, c in bad):
             return j   # the explicit spelling does not fail: keep the original
         best = jsons[bad[0][0]]
         for _ in range(rounds):
             consts = cur["enums"][0]["consts"]
             if len(consts) <= 1:
+                break
+            # minimisation is a courtesy: no new round once the check has used its quick-tier budget
+            if ctx.tier == "quick" and time.time() - ctx.t0 > MINIMISE_BUDGET_S:
+                ctx.log("minimisation stopped after %.0fs (budget); reporting the %d-constant definition" % (
+                    time.time() - ctx.t0, len(consts)))
                 break
             cands = []
             half = len(consts) // 2
@@ -162,7 +283,7 @@ def minimise(ctx, mode, case_type, judge, j, code, keep=None, rounds=4):
             terms, jsons, err = run_farm(ctx, mode, defs=defs, tag="min")
             if err:
                 break
-            bad, _, err = ctx.judge_cases(HEADER, case_type, judge, terms, shard=50, tag="min")
+            bad, _, err = ctx.judge_cases(header_of(ctx), case_type, judge_of(ctx, judge), terms, shard=50, tag="min")
             if err:
                 break
             hits = [i for i, c in bad if c == code]
@@ -226,11 +347,14 @@ def replay_file(ctx, path, mode, case_type, judge, explain):
         print(json.dumps(rep, indent=1)[:4000])
         print("replay file carries no definition (it records a broken obligation)")
         return 0
+    if not build_judge(ctx):
+        return 2
+    use_skeletons(ctx)
     terms, jsons, err = run_farm(ctx, mode, defs=[fd], tag="replay")
     if err:
         print(err)
         return 2
-    bad, _, err = ctx.judge_cases(HEADER, case_type, judge, terms, shard=50, tag="replay")
+    bad, _, err = ctx.judge_cases(header_of(ctx), case_type, judge_of(ctx, judge), terms, shard=50, tag="replay")
     if err:
         print(err)
         return 2
@@ -239,10 +363,11 @@ def replay_file(ctx, path, mode, case_type, judge, explain):
     for i, j in enumerate(jsons):
         code = dict(bad).get(i, 0)
         print("enum %s: outcome=%s verdict=%s" % (j["type"], j["outcome"],
-              {0: "ok", 1: "VIOLATES the specification", 2: "differs from the Coq model"}[code]))
+              {0: "ok", 1: "VIOLATES the specification", 2: "differs from the Coq model",
+               3: "outside the quantified space"}[code]))
         if code:
             print(explain(j))
-    return 1 if bad else 0
+    return 1 if [c for _, c in bad if c != 3] else 0
 
 
 def known(ctx, feats):
@@ -282,25 +407,37 @@ def report_all(ctx, mode, case_type, judge, jsons, bad, features, explain, widen
                 found = True
         return found
 
+    def report_tie():
+        """a broken translator tie is itself a violation; it carries no failing input of its own"""
+        for tf in getattr(ctx, "_tie_failures", None) or []:
+            if any(v != "(not written)" for v in ctx.violations) and getattr(ctx, "_have_failing_input", False):
+                tf = dict(tf, note="the farm run of this check found a failing input (reported above)")
+            ctx.report(tf, {"kind": "translator_tie"}, failing_input=False)
+        ctx._tie_failures = []
+
     v1 = [jsons[i] for i, code in bad if code == 1]
     v2 = [jsons[i] for i, code in bad if code != 1]
     # unlisted failing inputs first (they get the replay files), then the ones matching open findings
     v1.sort(key=lambda j: known(ctx, features(j)))
     have_failing = report_v1(v1)
+    ctx._have_failing_input = have_failing
     ctx.cov["spec_violations"] = len(v1)
     ctx.cov["model_only_disagreements"] = len(v2)
     if not v2:
+        report_tie()
         return
     ctx.cov["model_only_samples"] = [slim(j, maxlist=4) for j in v2[:2]]
     if not have_failing:
         ctx.log("%d case(s) differ from the model only; widening the farm run to look for a failing input" % len(v2))
         terms, wj, err = run_farm(ctx, mode, n=widen_n, corpus=False, seed=ctx.seed + 7919, tag="widen")
         if not err:
-            wbad, _, err = ctx.judge_cases(HEADER, case_type, judge, terms, shard=shard, tag="widen")
+            wbad, _, err = ctx.judge_cases(header_of(ctx), case_type, judge_of(ctx, judge), terms, shard=shard, tag="widen")
             if not err:
                 wv1 = [wj[i] for i, code in wbad if code == 1 and not known(ctx, features(wj[i]))]
                 ctx.cov["widened_run"] = {"evaluations": len(wj), "spec_violations": len(wv1)}
                 have_failing = report_v1(wv1)
+    ctx._have_failing_input = have_failing
+    report_tie()
     if have_failing:
         ctx.log("%d further case(s) satisfy the specification but differ from the model (listed in the evidence)" % len(v2))
         return
